@@ -198,6 +198,8 @@ class Pkg(object):
         _canon.SIGS.update(_canon.build_signatures([m.tree for m in self.mods.values()]))
         _canon.CLASS_METHODS.clear()
         _canon.CLASS_METHODS.update(_canon.build_class_methods([m.tree for m in self.mods.values()]))
+        _canon.RET_ARITY.clear()
+        _canon.RET_ARITY.update(_canon.build_ret_arity([m.tree for m in self.mods.values()]))
         from .known_funcs import KNOWN as _KNOWN
         _canon.FOREIGN_HOME_MODULES.clear()
         _canon.FOREIGN_HOME_MODULES.update(n for n in self.mods if "." not in n)
